@@ -415,6 +415,16 @@ where
     for<'id> INodeOfFunc<'id, F>: HasLevel,
     for<'id> TermOfFunc<'id, F>: ParseTagged<ETagOfFunc<'id, F>>,
 {
+    fresh_import_x::<F>(bytes, want_tokens_when_ok, 0)
+}
+
+/// ... with `extra` further variables in the target manager, placed above
+/// the support variables (a larger manager with a compatible order)
+fn fresh_import_x<F: BoolExt>(bytes: &[u8], want_tokens_when_ok: bool, extra: u32) -> Value
+where
+    for<'id> INodeOfFunc<'id, F>: HasLevel,
+    for<'id> TermOfFunc<'id, F>: ParseTagged<ETagOfFunc<'id, F>>,
+{
     let mut ev = json!({});
     let mut cur = Cursor::new(bytes);
     let h = catch(|| DumpHeader::load(&mut cur));
@@ -442,20 +452,22 @@ where
             None => "none",
         };
         let have = m.num_vars();
-        if have < nv {
-            m.add_vars(nv - have);
+        if have < nv + extra {
+            m.add_vars(nv + extra - have);
         }
         r
     });
     ev["named"] = json!(named);
+    ev["extra"] = json!(extra);
     // the support variables must be ordered by level
-    let ro = mref.with_manager_exclusive(|m| catch(|| F::set_var_order(m, &sv)));
+    let wanted: Vec<u32> = (nv..nv + extra).chain(sv.iter().copied()).collect();
+    let ro = mref.with_manager_exclusive(|m| catch(|| F::set_var_order(m, &wanted)));
     if let Err(p) = ro {
         ev["res"] = json!({"c": "setup_panic", "msg": p});
         return ev;
     }
     let (l2v, v2l) = mref.with_manager_shared(|m| F::order(m));
-    ev["n"] = json!(nv);
+    ev["n"] = json!(nv + extra);
     ev["l2v"] = json!(l2v);
     let sorted = sv.iter().all(|&v| v < nv)
         && sv
@@ -486,7 +498,7 @@ where
             })
             .collect();
         ev["es"] = json!(es);
-        if nv <= TT_MAX_VARS {
+        if nv <= TT_MAX_VARS && extra == 0 {
             ev["tts"] = json!(roots.iter().map(|f| tt_of(f, nv)).collect::<Vec<_>>());
         }
         let (g, snap, ninner) = mref.with_manager_shared(|m| {
@@ -613,6 +625,12 @@ where
     s.out.emit(ev);
     if same_ok && fresh_ok && header.num_nodes() >= 2 {
         stats.nontrivial += 1;
+    }
+    // a larger fresh manager: 1..3 further variables above the support
+    if fresh_ok && header.num_vars() + 3 <= TT_MAX_VARS.min(FRESH_MAX_VARS) {
+        let mut ev = fresh_import_x::<F>(&bytes, false, 1 + (stats.exports % 3) as u32);
+        ev["ev"] = json!("import_larger");
+        s.out.emit(ev);
     }
     bytes
 }
